@@ -1344,7 +1344,7 @@ func main() {
 			}
 			return ok >= 1 && (ok+crashed) >= 2
 		},
-		Rule: "random walks over (height, round, step) with repeats, regressions, same-HRS re-requests for the same / another block, new timestamps, other chain ids, nil / malformed block ids; crash storms (up to 3 crashes per step at micro-steps 1..5, each followed by a re-request); hostile hand-written state files (sign bytes without signature, signature over other content, negative heights); malformed op lines. Kinds kill-*: the signer runs in a child process and every crash is a true SIGKILL injected by strace at the openat / write / renameat / unlinkat of WriteFileAtomic (or a self-kill right after Sign returns), followed by a restart from the directory. Non-trivial = at least one released signature and at least two released-or-crashed requests; distinct by hash of the op list",
+		Rule: "random walks over (height, round, step) with repeats, regressions, same-HRS re-requests for the same / another block, new timestamps, other chain ids, nil / malformed block ids; crash storms (up to 3 crashes per step at micro-steps 1..5, each followed by a re-request); hostile hand-written state files (sign bytes without signature, signature over other content, negative heights); malformed op lines. Kinds kill-*: the signer runs in a child process and every crash is a true SIGKILL injected by strace at the openat / write / renameat / unlinkat of WriteFileAtomic (or a self-kill right after Sign returns), followed by a restart from the directory. Kind node: a single-validator node (consensus.State, on-disk WAL, goleveldb, in-process kvstore, real FilePV behind a wrapper that journals+fsyncs every returned signature) runs in a child, is killed by strace at the n-th write / fsync / renameat / openat of some thread up to 3 times, optionally loses up to 60 bytes of the WAL head file, and is restarted; the union of the journals goes to the same oracle (timing dependent: the witness journal is saved next to the replay file). Non-trivial = at least one released signature and at least two released-or-crashed requests; distinct by hash of the op list",
 		Assumptions: []string{
 			"ed25519 signing is deterministic; the signature scheme is a parameter sigOf of the model, the driver instantiates it with the ideal scheme (a signature is the content it signs) and the harness maps real signatures to the content they verify for",
 			"rename(2) atomically replaces the state file and an O_SYNC write is durable when it returns (file-system hypotheses; the kill stream checks them against process death only, not power loss)",
